@@ -1,6 +1,7 @@
 import Bifrost.Model.Sign
 import Bifrost.Model.Crypto
 import Bifrost.Lemmas.Sign
+import Bifrost.Lemmas.Codec
 /-!
 C02 — Signatures bind key, context, hash type and data. Property theorems only.
 -/
@@ -124,6 +125,127 @@ theorem reject_malformed_validate (s : Signature)
     cases hx : s.pubKey with
     | nil => exact absurd hx h1
     | cons a l => simp
+
+/-! ### the constructors: `NewSignatureWithHashedData`, `NewSignature(…, inclPubKey)` -/
+
+/-- Exactly what `NewSignatureWithHashedData` returns: a signature object only for a supported
+hash type (not UNKNOWN, not out of range) and a value of that type's digest length; its hash
+type is the requested one, its bytes are the private-key operation on the prescribed body, and
+it embeds the marshalled public key iff asked to. -/
+theorem hashed_some_iff (sign : Bytes → Bytes) (pub ctx : Bytes) (t : Int) (hd : Bytes) (incl : Bool)
+    (s : Signature) :
+    newSignatureWithHashedData sign pub ctx t hd incl = some s ↔
+      hashTypeSupported t = true ∧ hd.length = hashLen t ∧
+      s = { pubKey := if incl then marshalPublicKey pub else [], hashType := t,
+            sigData := sign (signBody ctx t hd) } := by
+  unfold newSignatureWithHashedData
+  constructor
+  · intro h
+    split at h
+    · cases h
+    rename_i hv
+    split at h
+    · cases h
+    rename_i h0
+    split at h
+    · cases h
+    rename_i hl
+    cases h
+    exact ⟨hashTypeSupported_of_valid_ne_zero (by simpa using hv) h0, by simpa using hl, rfl⟩
+  · rintro ⟨hsup, hl, rfl⟩
+    rw [hashTypeSupported_valid hsup, if_neg (hashTypeSupported_ne_zero hsup)]
+    simp [hl]
+
+/-- Binding for the hashed-data constructor: what it creates for `(ctx, t, hd)` verifies under
+`(pk', ctx', data')`, possibly relabelled `t'`, only for the same key, context and hash type and
+for data whose digest is `hd`. -/
+theorem hashed_created_binds (S : SigScheme) (H : HashFam) (sk pub ctx hd : Bytes) (t : Int) (incl : Bool)
+    (s : Signature)
+    (hs : newSignatureWithHashedData (S.sign sk) pub ctx t hd incl = some s)
+    (t' : Int) (ctx' pk' data' : Bytes)
+    (hv : verifyWithPublic S.verify H.sum { s with hashType := t' } ctx' pk' data' = .good) :
+    pk' = S.pub sk ∧ ctx' = ctx ∧ t' = t ∧ H.sum t data' = some hd := by
+  obtain ⟨hsup, hl, rfl⟩ := (hashed_some_iff ..).mp hs
+  obtain ⟨hsup', h', sk', hsum', hpk', hsig'⟩ :=
+    (verify_iff_created S H _ ctx' pk' data').mp hv
+  simp only at hsup' hsum' hsig'
+  obtain ⟨hpub, hbody⟩ := S.sign_inj _ _ _ _ hsig'
+  obtain ⟨hc, htt, hh⟩ := signBody_injective ctx ctx' t t' hd h' hsup hsup'
+    hl (H.len_ok _ _ _ hsum') hbody
+  subst htt
+  subst hh
+  exact ⟨by rw [← hpk', hpub], hc.symm, rfl, hsum'⟩
+
+/-- …and it does verify for data with that digest under the matching public key. -/
+theorem hashed_created_verifies (S : SigScheme) (H : HashFam) (sk pub ctx data hd : Bytes) (t : Int)
+    (incl : Bool) (s : Signature) (hsum : H.sum t data = some hd)
+    (hs : newSignatureWithHashedData (S.sign sk) pub ctx t hd incl = some s) :
+    verifyWithPublic S.verify H.sum s ctx (S.pub sk) data = .good := by
+  obtain ⟨hsup, _, rfl⟩ := (hashed_some_iff ..).mp hs
+  exact (verify_iff_created S H _ ctx (S.pub sk) data).mpr ⟨hsup, hd, sk, hsum, rfl, rfl⟩
+
+/-- `NewSignature(…, inclPubKey)` is `NewSignature(…, false)` plus the embedded key field. -/
+theorem newSignatureIncl_eq (sign : Bytes → Bytes) (pub : Bytes) (H : HashFam) (ctx data : Bytes) (t : Int)
+    (incl : Bool) :
+    newSignatureIncl sign pub H.sum ctx t data incl =
+      (newSignature sign H.sum ctx t data).map
+        (fun s => { s with pubKey := if incl then marshalPublicKey pub else [] }) := by
+  unfold newSignatureIncl newSignature
+  cases hsum : H.sum t data with
+  | none =>
+    simp
+  | some h =>
+    have hsup : hashTypeSupported t = true := by
+      have := H.supported t data
+      rw [hsum] at this
+      simpa using this.symm
+    have hl := H.len_ok _ _ _ hsum
+    simp only
+    rw [hashTypeSupported_valid hsup]
+    simp only [Bool.not_true, Bool.false_eq_true, if_false, Option.map_some]
+    exact (hashed_some_iff ..).mpr ⟨hsup, hl, rfl⟩
+
+/-- The embedded key: absent unless asked for; when asked for it parses to the signer's public
+key; either way the created object passes `Validate`. -/
+theorem created_embeds_key (S : SigScheme) (sk ctx hd : Bytes) (t : Int) (incl : Bool) (s : Signature)
+    (hpk : (S.pub sk).length = 32)
+    (hs : newSignatureWithHashedData (S.sign sk) (S.pub sk) ctx t hd incl = some s) :
+    s.validate = true ∧ (incl = false → s.pubKey = []) ∧
+      (incl = true → s.pubKey = marshalPublicKey (S.pub sk) ∧ unmarshalPublicKey s.pubKey = some (S.pub sk)) := by
+  obtain ⟨hsup, _, rfl⟩ := (hashed_some_iff ..).mp hs
+  have hne := isEmpty_eq_false_of_ne_nil (S.sig_nonempty sk (signBody ctx t hd))
+  refine ⟨?_, ?_, ?_⟩
+  · unfold Signature.validate
+    simp only
+    rw [hashTypeSupported_valid hsup, hne]
+    cases incl
+    · rfl
+    · simp [unmarshal_marshalPublicKey _ hpk]
+  · intro h; subst h; rfl
+  · intro h; subst h
+    exact ⟨rfl, unmarshal_marshalPublicKey _ hpk⟩
+
+/-- Refuted for the constructor as it was BEFORE the length check: a value longer than a digest
+can contain the separator, and the signature made for context `a` verifies under the context
+`a - SIGN - 1 - SIGN - Y` (replayed on the real code by engine sign, class
+hashed-ctor/smuggled-separator). -/
+theorem hashed_unchecked_binds_context_false :
+    ¬ (∀ (S : SigScheme) (H : HashFam) (sk pub ctx hd : Bytes) (t : Int) (incl : Bool) (s : Signature),
+        newSignatureWithHashedDataUnchecked (S.sign sk) pub ctx t hd incl = some s →
+        ∀ ctx' pk' data', verifyWithPublic S.verify H.sum s ctx' pk' data' = .good → ctx' = ctx) := by
+  intro hall
+  have h := hall ToySig ToyHash [7] [] [97]
+    ([89] ++ sep ++ [49] ++ sep ++ (5 :: List.replicate 31 0)) 1 false _ rfl
+    ([97] ++ sep ++ [49] ++ sep ++ [89]) [7] [5] (by decide)
+  exact absurd h (by decide)
+
+/-- Non-vacuity of the constructor theorems: the toy scheme creates, with embedded key, a
+signature that verifies. -/
+example : ∃ s, newSignatureIncl (ToySig.sign (List.replicate 32 4)) (ToySig.pub (List.replicate 32 4))
+      ToyHash.sum [9] 3 [5, 6] true = some s ∧
+    unmarshalPublicKey s.pubKey = some (List.replicate 32 4) ∧
+    verifyWithPublic ToySig.verify ToyHash.sum s [9] (List.replicate 32 4) [5, 6] = .good := by
+  refine ⟨_, rfl, by decide, by decide⟩
 
 /-- Non-vacuity: the hypotheses are satisfiable (toy scheme) and the theorem fires. -/
 example : ∃ s, newSignature (ToySig.sign [1, 2]) ToyHash.sum [9] 3 [5, 6] = some s ∧
